@@ -6,6 +6,7 @@ open RedunModel RedunModel.ValueStore
    (init T|F)                                 fresh backend with / without a value store           -> ok
    (name b<payload> b<fname>)                 one point of the FileCache naming function `fn`      -> ok
    (record <val> i<min> i<max>)               <val> ::= (plain b<pickle>) | (fc b<payload>)        -> (ok <key>) | !RedunDatabaseError
+   (getaway <key>)                            get while the store directory is moved away (state unchanged)  -> as get
    (get <key>)                                <key> ::= (T|F b<data>)                              -> absent | <val> | !AssertionError
    (dropstore <key>) (dropfc b<fname>) (attach)                                                     -> ok
    (dump)        -> ((db (<key> inline|placeholder)*) (store <key>*) (fc b<fname>*)), each part sorted as text -/
@@ -72,6 +73,14 @@ def stepLine (st : DSt) (line : String) : DSt × String :=
   | some [.list [.atom "get", k]] =>
     match pKey k with
     | some k => (st, match get k st.s with
+      | .ok none => "absent"
+      | .ok (some v) => rVal v
+      | .error .noStore => "!AssertionError"
+      | .error .tooLarge => "!RedunDatabaseError")
+    | none => (st, "bad-value")
+  | some [.list [.atom "getaway", k]] =>
+    match pKey k with
+    | some k => (st, match getAway k st.s with
       | .ok none => "absent"
       | .ok (some v) => rVal v
       | .error .noStore => "!AssertionError"
